@@ -291,8 +291,14 @@ func c08(args []string) {
 			pool = append(pool, b)
 		}
 	}
+	pool = append(pool, c16Boundary()...) // definitions of 1..255 fields with and without a developer part: the largest single requests
 	for i := 0; i < n; i++ {
 		b := pool[r.intn(len(pool))]
+		if i%10 == 3 { // ... regularly, not only when the draw falls on them
+			bnd := c16Boundary()
+			b = bnd[(i/10)%len(bnd)]
+			stat("boundary_definition_inputs", 1)
+		}
 		switch r.intn(5) {
 		case 0:
 			b = r.mutate(b)
